@@ -2,7 +2,7 @@
    implementation, and the certified checkers on the implementation's output.
    Depends on the model only (not on the proofs). *)
 From Coupe Require Import Lib.Prelude Lib.SFloat Lib.Report Model.MultiJagged.
-From Coq Require Import Floats.SpecFloat QArith.
+From Coq Require Import Floats.SpecFloat QArith FMapPositive.
 Open Scope N_scope.
 
 Record case11 := mk11 {
@@ -114,9 +114,17 @@ Definition perm_b (a b : list nat) : bool :=
   Nat.eqb (length a) (length b) &&
   forallb (fun x => Nat.eqb (count_occ Nat.eq_dec a x) (count_occ Nat.eq_dec b x)) a.
 
+(* elements 0..n-1 grouped by id 0..L-1 *)
 Definition leaves_of_ids (p : list N) (n L : nat) : list (list nat) :=
-  map (fun j => filter (fun i => match nth_opt p i with Some x => x =? N.of_nat j | None => false end) (seq 0 n))
-      (seq 0 L).
+  let ip := combine (seq 0 n) p in
+  map (fun j => map fst (filter (fun e => snd e =? N.of_nat j) ip)) (seq 0 L).
+
+(* index -> value maps (logarithmic access instead of nth on lists) *)
+Definition pm_of_list {T} (l : list T) : PositiveMap.t T :=
+  fst (fold_left (fun (acc : PositiveMap.t T * positive) x =>
+                    (PositiveMap.add (snd acc) x (fst acc), Pos.succ (snd acc)))
+                 l (PositiveMap.empty T, 1%positive)).
+Definition pm_get {T} (m : PositiveMap.t T) (i : nat) : option T := PositiveMap.find (Pos.of_succ_nat i) m.
 
 (* ---------- one case ---------- *)
 
@@ -128,7 +136,8 @@ Definition eval11 (c : case11) : verdict :=
   let k := c_k c in
   let m := c_iter c in
   let ptsf := map (map f64_of_bits) (c_pts c) in
-  let cx (a i : nat) := nth a (nth i ptsf []) S754_nan in
+  let ptsm := pm_of_list ptsf in
+  let cx (a i : nat) := match pm_get ptsm i with Some l => nth a l S754_nan | None => S754_nan end in
   let cxlt (a x y : nat) := flt (cx a x) (cx a y) in
   (* oracles *)
   let tbl := match c_scheme c with Some s => roots_of s k m | None => [(k, m, c_root0 c)] end in
@@ -164,7 +173,7 @@ Definition eval11 (c : case11) : verdict :=
     | Panic _, IPanic => true
     | _, _ => false
     end in
-  let r_exact := multi_jagged QA D n wq sorter blk root N.of_nat k m p0 in
+  let r_exact := multi_jagged QAred D n wq sorter blk root N.of_nat k m p0 in
   let exact_agrees :=
     match r_model, r_exact with
     | Ok p, Ok p' => list_eqb N.eqb p p'
@@ -176,7 +185,9 @@ Definition eval11 (c : case11) : verdict :=
   let jag_ok :=
     match c_impl c, c_seq c, c_scheme c with
     | IOk p, IOk ps, Some h =>
-      check_jagged N D cxlt (fun i => nth i p unwritten) h n (leaves_of_ids ps n (leaves h))
+      let pm := pm_of_list p in
+      check_jagged N D cxlt (fun i => match pm_get pm i with Some x => x | None => unwritten end) h n
+                   (leaves_of_ids ps n (leaves h))
     | IOk _, _, _ => false
     | _, _, _ => true
     end in
